@@ -77,6 +77,7 @@ func main() {
 	eager := flag.String("eager", "", "||-separated runtime-panic sites whose unwinding is executed eagerly")
 	feasSched := flag.Bool("feas-sched", false, "solver feasibility checks at loop back edges in sched mode too")
 	unwindFn := flag.String("unwind-fn", "", "per-function unwinding bounds: Name=n,Name=n")
+	settleFeas := flag.Int("settle-feas", 0, "solver feasibility pruning of resting configs when a goroutine has more than this many (0 = off)")
 	eagerAll := flag.Bool("eager-all", false, "execute every potential runtime panic eagerly")
 	instrDir := flag.String("instrument", "", "write instrumented copies of the package sources (for native schedule replay) into this directory and exit")
 	flag.Parse()
@@ -130,6 +131,7 @@ func main() {
 	e.unwind = *unwind
 	e.noPOR = *noPOR
 	e.trace = *trace
+	e.settleFeas = *settleFeas
 	e.unwindFn = map[string]int{}
 	for _, kv := range strings.Split(*unwindFn, ",") {
 		p := strings.SplitN(kv, "=", 2)
